@@ -156,9 +156,12 @@ type replayResult struct {
 	exit       int
 }
 
-func runReplay(path, knownPath, isolate string, verbose bool) replayResult {
-	cmd := exec.Command("bash", "-c", "ulimit -v 5242880; exec "+simTest+" -test.run '^TestReplay$' -test.timeout 10m -test.count 1")
+func runReplay(path, knownPath, isolate string, verbose bool, history ...bool) replayResult {
+	cmd := exec.Command("bash", "-c", "ulimit -v 5242880; exec "+simTest+" -test.run '^TestReplay$' -test.timeout 60m -test.count 1")
 	cmd.Env = append(goEnv(), "VERIF_REPLAY="+path, "VERIF_KNOWN="+knownPath, "GOMAXPROCS=1")
+	if len(history) > 0 && history[0] {
+		cmd.Env = append(cmd.Env, "VERIF_REPLAY_HISTORY=1")
+	}
 	if isolate != "" {
 		cmd.Env = append(cmd.Env, "VERIF_ISOLATE="+isolate)
 	}
@@ -230,6 +233,13 @@ func main() {
 			}
 		}
 		res := runReplay(os.Args[2], kp, "", os.Getenv("VERIF_VERBOSE") != "")
+		if !res.reproduced {
+			var rf core.ReplayFile
+			b, _ := os.ReadFile(os.Args[2])
+			if json.Unmarshal(b, &rf) == nil && rf.History != nil && rf.Tape == nil {
+				res = runReplay(os.Args[2], kp, "", false, true)
+			}
+		}
 		fmt.Print(res.output)
 		var rf core.ReplayFile
 		b, _ := os.ReadFile(os.Args[2])
@@ -481,6 +491,19 @@ func verifyReplay(v *core.ReplayFile, path, knownPath string) string {
 		os.WriteFile(path, jb, 0o644)
 		*v = seedOnly
 		return "(unminimised: the run is identified by its seed, the minimised tape depended on the finder's process history)"
+	}
+	// last resort: the finding needs library state left behind by earlier runs of the finder: replay its whole history
+	if seedOnly.History != nil {
+		ha := runReplay(path, knownPath, "", false, true)
+		hb := runReplay(path, knownPath, "", false, true)
+		if ha.reproduced && hb.reproduced && ha.signature == hb.signature {
+			seedOnly.Signature = ha.signature
+			seedOnly.Detail += " [reproduces only after the earlier runs of the same worker: replay re-executes that history (history field)]"
+			jb, _ = json.MarshalIndent(seedOnly, "", " ")
+			os.WriteFile(path, jb, 0o644)
+			*v = seedOnly
+			return "(history replay: the finding depends on library state left behind by earlier runs of worker " + fmt.Sprint(seedOnly.History.Worker) + ")"
+		}
 	}
 	return ""
 }
